@@ -7,6 +7,7 @@ git -C /repo apply "$patch" || { echo "patch does not apply"; exit 2; }
 /verif/bin/verif check "$prop" --tier "$tier" > /verif/.work/seedtest-$prop.log 2>&1
 rc=$?
 git -C /repo checkout -- .
+/verif/bin/verif build plain >/dev/null 2>&1
 echo "check exit=$rc"
 grep -c '^VIOLATION' /verif/.work/seedtest-$prop.log
 grep '^VIOLATION\|^KNOWN' /verif/.work/seedtest-$prop.log | cut -c1-260 | head -4
